@@ -1103,10 +1103,13 @@ func (m *Monitors) onRelease(n *Node, f *Flight) {
 					"node %d grants its term-%d vote to %d after granting it to %d", n.ID, T, cand, prev)
 			}
 			m.votedFor[key] = cand
-			ht, hv := d.HS.GetTerm(), d.HS.GetVote()
+			// durable = fsynced: a written but un-synced hard state does not
+			// survive a crash (the application syncs exactly when raft's
+			// MustSync / non-empty Responses demand it).
+			ht, hv := d.SyncedHS.GetTerm(), d.SyncedHS.GetVote()
 			if !(ht > T || (ht == T && hv == cand)) {
 				m.viol([]string{"C05", "C02"}, "vote_durable_before_visible", "c05.vote_not_durable",
-					"node %d releases a term-%d vote for %d but its durable hard state is (term %d, vote %d)", n.ID, T, cand, ht, hv)
+					"node %d releases a term-%d vote for %d but its durable (synced) hard state is (term %d, vote %d); written: %v", n.ID, T, cand, ht, hv, d.HS)
 			}
 		}
 		s.Stats.inc("vote.granted_released")
@@ -1116,7 +1119,7 @@ func (m *Monitors) onRelease(n *Node, f *Flight) {
 		}
 		if m.On["C05"] {
 			i := msg.GetIndex()
-			ht := d.HS.GetTerm()
+			ht := d.SyncedHS.GetTerm()
 			ok := ht > T
 			if !ok {
 				if f.AckKnown {
